@@ -317,8 +317,26 @@ func connectRejectionFramed(r *R) {
 
 // splitArgs splits the argument list of a printed call "f(a, b, c)" at top-level commas.
 func splitArgs(call string) []string {
-	i := strings.Index(call, "(")
-	if i < 0 || !strings.HasSuffix(call, ")") {
+	if !strings.HasSuffix(call, ")") {
+		return nil
+	}
+	// the argument list is the parenthesis that closes at the end ("(*T).m(a, b)": not the receiver's)
+	i, depth := -1, 0
+	for k := len(call) - 1; k >= 0; k-- {
+		switch call[k] {
+		case ')':
+			depth++
+		case '(':
+			depth--
+			if depth == 0 {
+				i = k
+			}
+		}
+		if i >= 0 {
+			break
+		}
+	}
+	if i < 0 {
 		return nil
 	}
 	s := call[i+1 : len(call)-1]
